@@ -38,6 +38,8 @@ def cases(tier, seed):
                 out.append(dict(kind="params", cls=name, D=D, N=N, v=rep, rs=[seed, env.crc(name), D, rep, 7], cost={1: 1, 2: 2, 3: 5}[D]))
     for w in ("repeated", "forced"):
         out.append(dict(kind="wrapper", w=w, rs=[seed, env.crc(w)], cost=2))
+    for x64 in (True, False):      # the documented performance-hints programs (docs/examples/performance_hints), x64 and default float32 sessions
+        out.append(dict(kind="hints", x64=x64, rs=[seed, 77], cost=6))
     return out
 
 
@@ -240,7 +242,53 @@ def run_wrapper(case, bus, ex):
         bus.judge("rollout_nesting", float(np.max(np.abs(tr[-1] - np.asarray(u)))) / S, TOL * 3, ("ForcedStepper", "rollout(takes_aux)"), witness=dict(wrapper="ForcedStepper"))
 
 
+def run_hints(case, bus, ex):
+    """docs/examples/performance_hints: Fourier-space rollout, ensemble over diffusivities built with eqx.filter_vmap, batched ICs from build_ic_set."""
+    import jax, jax.numpy as jnp, equinox as eqx
+    x64 = case["x64"]
+    eps = float(np.finfo(np.float64 if x64 else np.float32).eps)
+    sess = "x64" if x64 else "f32"
+    D, L, N, DT = 1, 3.0, 100, 0.1
+    st = ex.stepper.Burgers(D, L, N, DT)
+    gen = ex.ic.RandomTruncatedFourierSeries(D, cutoff=5, max_one=True)
+    u0 = gen(N, key=jax.random.PRNGKey(0))
+    n = 100
+    tol = 256 * eps * n
+    ref = np.asarray(ex.rollout(st, n, include_init=True)(u0)).astype(np.float64)
+    S = float(np.max(np.abs(ref)))
+    # (1) rollout in Fourier space == rollout in physical space (band-limited IC, N even but no Nyquist content)
+    trj_hat = ex.rollout(st.step_fourier, n, include_init=True)(ex.fft(u0))
+    back = np.asarray(jax.vmap(lambda h: ex.ifft(h, num_spatial_dims=D, num_points=N))(trj_hat)).astype(np.float64)
+    bus.judge("rollout_nesting", float(np.max(np.abs(back - ref))) / S, tol, ("hints", "fourier-space rollout", sess), sample=dict(program="rollout(step_fourier)", session=sess), witness=dict(program="rollout(step_fourier)", session=sess))
+    # (2) jit(rollout) and the manual loop
+    v, loop = u0, [np.asarray(u0)]
+    for _ in range(n):
+        v = st(v)
+        loop.append(np.asarray(v))
+    loop = np.stack(loop).astype(np.float64)
+    bus.judge("rollout_nesting", float(np.max(np.abs(ref - loop))) / S, tol, ("hints", "rollout vs loop", sess), witness=dict(program="rollout vs python loop", session=sess))
+    got = np.asarray(jax.jit(ex.rollout(st, n, include_init=True))(u0)).astype(np.float64)
+    bus.judge("jit_equals_eager", float(np.max(np.abs(got - ref))) / S, tol, ("hints", "jit(rollout)", sess), witness=dict(program="jit(rollout)", session=sess))
+    # (3) batch of ICs from build_ic_set through vmap(rollout)
+    U = ex.build_ic_set(gen, num_points=N, num_samples=10, key=jax.random.PRNGKey(0))
+    a = np.asarray(jax.vmap(ex.rollout(st, 20))(U)).astype(np.float64)
+    b = np.stack([np.asarray(ex.rollout(st, 20)(U[i])) for i in range(10)]).astype(np.float64)
+    bus.judge("vmap_equals_loop", float(np.max(np.abs(a - b))) / S, 256 * eps * 20, ("hints", "vmap(rollout)(ic set)", sess), witness=dict(program="vmap(rollout)(build_ic_set)", session=sess))
+    # (4) ensemble of steppers over diffusivities
+    nus = jnp.array([0.1, 0.3, 0.7])
+    ens = eqx.filter_vmap(lambda nu: ex.stepper.Burgers(D, L, N, DT, diffusivity=nu))(nus)
+    e1 = np.asarray(eqx.filter_vmap(lambda s, u: ex.rollout(s, 20)(u), in_axes=(eqx.if_array(0), None))(ens, u0)).astype(np.float64)
+    e2 = np.stack([np.asarray(ex.rollout(ex.stepper.Burgers(D, L, N, DT, diffusivity=float(nu)), 20)(u0)) for nu in (0.1, 0.3, 0.7)]).astype(np.float64)
+    bus.judge("param_batch", float(np.max(np.abs(e1 - e2))) / S, 256 * eps * 20, ("hints", "stepper ensemble", sess), sample=dict(program="filter_vmap ensemble over diffusivity", session=sess), witness=dict(program="ensemble", session=sess))
+    # (5) ensemble x batch of ICs
+    e3 = np.asarray(eqx.filter_vmap(lambda s, uu: jax.vmap(ex.rollout(s, 10))(uu), in_axes=(eqx.if_array(0), None))(ens, U)).astype(np.float64)
+    e4 = np.stack([np.stack([np.asarray(ex.rollout(ex.stepper.Burgers(D, L, N, DT, diffusivity=float(nu)), 10)(U[i])) for i in range(10)]) for nu in (0.1, 0.3, 0.7)]).astype(np.float64)
+    bus.judge("param_batch", float(np.max(np.abs(e3 - e4))) / S, 256 * eps * 10, ("hints", "ensemble x ic set", sess), witness=dict(program="ensemble x ic set", session=sess))
+
+
 def run_case(case, bus, ex):
+    if case["kind"] == "hints":
+        return run_hints(case, bus, ex)
     return {"programs": run_programs, "params": run_params, "wrapper": run_wrapper}[case["kind"]](case, bus, ex)
 
 
